@@ -183,10 +183,11 @@ type vHtlc struct {
 	Path    *int    `json:"path"`
 	Total   uint64  `json:"total"`
 	Ks      any     `json:"ks"` // nil | "bad" | preimage id
-	// AMP stream only (predicate-only cases)
-	SetID int    `json:"set_id,omitempty"`
+	// AMP record (ids; meaningful when Amp)
+	SetID int    `json:"set_id"`
+	Share int    `json:"share"`
+	Idx   uint32 `json:"idx"`
 	ampRec *record.AMP
-	rawHash *lntypes.Hash
 }
 
 type vUniverse struct {
@@ -195,6 +196,94 @@ type vUniverse struct {
 	addr     [][32]byte       // addr id i+1
 	preID    map[[32]byte]int
 	chanBase uint64
+	// AMP id spaces
+	hashIDs  map[[32]byte]int // every hash with an id (u.hash ids + derived children)
+	shareIDs map[[32]byte]int
+	setIDs   map[[32]byte]int
+	nextAux  int // ids for derived hashes that are no lookup target
+	ampTbl   []vAmpEntry
+	ampSeen  map[string]bool
+}
+
+// vAmpEntry is one point of the reconstruction oracle: descs (share id, child
+// index) sorted ascending -> (child hash id, child preimage id), computed by
+// amp.ReconstructChildren.
+type vAmpEntry struct {
+	Descs [][2]int `json:"descs"`
+	Res   [][2]int `json:"res"`
+}
+
+func (u *vUniverse) shareID(s [32]byte) int {
+	if id, ok := u.shareIDs[s]; ok {
+		return id
+	}
+	id := len(u.shareIDs) + 1
+	u.shareIDs[s] = id
+	return id
+}
+
+// lookupHashID registers h as a lookup target (an HTLC's payment hash).
+func (u *vUniverse) lookupHashID(h [32]byte) int {
+	if id, ok := u.hashIDs[h]; ok && id <= len(u.hash) {
+		return id
+	}
+	u.hash = append(u.hash, h)
+	u.hashIDs[h] = len(u.hash)
+	return len(u.hash)
+}
+
+func (u *vUniverse) anyHashID(h [32]byte) int {
+	if id, ok := u.hashIDs[h]; ok {
+		return id
+	}
+	u.nextAux++
+	u.hashIDs[h] = u.nextAux
+	return u.nextAux
+}
+
+func (u *vUniverse) anyPreID(p [32]byte) int {
+	if id, ok := u.preID[p]; ok {
+		return id
+	}
+	id := 10 + len(u.preID)
+	u.preID[p] = id
+	return id
+}
+
+// ampOracle records the oracle points for every non-empty subset of the AMP
+// records in group (all HTLC variants carrying one set id).
+func (u *vUniverse) ampOracle(group []*vHtlc) {
+	n := len(group)
+	for mask := 1; mask < (1 << n); mask++ {
+		var sel []*vHtlc
+		for i := 0; i < n; i++ {
+			if mask&(1<<i) != 0 {
+				sel = append(sel, group[i])
+			}
+		}
+		sort.SliceStable(sel, func(i, j int) bool {
+			if sel[i].Share != sel[j].Share {
+				return sel[i].Share < sel[j].Share
+			}
+			return sel[i].Idx < sel[j].Idx
+		})
+		key := ""
+		descs := make([]amp.ChildDesc, len(sel))
+		e := vAmpEntry{}
+		for i, h := range sel {
+			descs[i] = amp.ChildDesc{Share: amp.Share(h.ampRec.RootShare()), Index: h.ampRec.ChildIndex()}
+			e.Descs = append(e.Descs, [2]int{h.Share, int(h.Idx)})
+			key += fmt.Sprintf("%d:%d,", h.Share, h.Idx)
+		}
+		if u.ampSeen[key] {
+			continue
+		}
+		u.ampSeen[key] = true
+		for _, c := range amp.ReconstructChildren(descs...) {
+			e.Res = append(e.Res, [2]int{u.anyHashID(c.Hash), u.anyPreID(c.Preimage)})
+		}
+		u.ampTbl = append(u.ampTbl, e)
+	}
 }
 
 func (u *vUniverse) hashOf(id int) lntypes.Hash { return lntypes.Hash(u.hash[id-1]) }
@@ -256,6 +345,7 @@ func (u *vUniverse) payload(h *vHtlc) *vPayload {
 		var share, set [32]byte
 		share[0], set[0] = 7, 9
 		p.amp = record.NewAMP(share, set, 1)
+		h.SetID, h.Share, h.Idx = 9, 7, 1
 	}
 	if h.Path != nil {
 		ph := chainhash.Hash(u.addrOf(*h.Path))
@@ -287,10 +377,13 @@ type vSnapHtlc struct {
 	Expiry uint32 `json:"expiry"`
 	Height uint32 `json:"height"`
 	State  string `json:"state"`
-	// AMP only
-	SetID   string `json:"set_id,omitempty"`
-	AmpHash string `json:"amp_hash,omitempty"`
-	AmpPre  string `json:"amp_pre,omitempty"`
+	// AMP only (ids; amp_pre -1 = none)
+	Amp     bool   `json:"amp"`
+	SetID   int    `json:"set_id"`
+	AmpHash int    `json:"amp_hash"`
+	AmpPre  int    `json:"amp_pre"`
+	AmpPreHex string `json:"amp_pre_hex,omitempty"`
+	AmpHashHex string `json:"amp_hash_hex,omitempty"`
 }
 
 type vSnap struct {
@@ -300,6 +393,8 @@ type vSnap struct {
 	Pre   *int        `json:"pre"`
 	PreHex string     `json:"pre_hex,omitempty"`
 	Htlcs []vSnapHtlc `json:"htlcs"`
+	// AMPState: [set id, state (0 accepted,1 canceled,2 settled), amt paid], sorted
+	AmpState [][3]uint64 `json:"amp_state"`
 }
 
 type vCase struct {
@@ -308,6 +403,7 @@ type vCase struct {
 	Case    int            `json:"case"`
 	Cfg     map[string]any `json:"cfg"`
 	Tbl     [][2]int       `json:"tbl"`
+	AmpTbl  []vAmpEntry    `json:"amp_tbl"`
 	HashHex []string       `json:"hash_hex"`
 	Ops     []vOp          `json:"ops"`
 }
@@ -318,9 +414,6 @@ type vRun struct {
 	reg  *InvoiceRegistry
 	hodl chan interface{}
 	ops  []vOp
-	// extra invoice hashes to look up (spontaneous AMP: child hashes)
-	extra   map[int]lntypes.Hash
-	extraID []int
 }
 
 func vCState(s ContractState) string {
@@ -409,25 +502,44 @@ func (r *vRun) snapshot() []vSnap {
 			sh := vSnapHtlc{Key: r.u.keyID(k), Amt: uint64(h.Amt),
 				Total: uint64(h.MppTotalAmt), Expiry: h.Expiry, Height: h.AcceptHeight,
 				State: vHState(h.State)}
+			sh.AmpPre = -1
 			if h.AMP != nil {
-				sid := h.AMP.Record.SetID()
-				sh.SetID = hex.EncodeToString(sid[:4])
-				sh.AmpHash = hex.EncodeToString(h.AMP.Hash[:])
+				sh.Amp = true
+				sid, ok := r.u.setIDs[h.AMP.Record.SetID()]
+				if !ok {
+					sid = 997
+				}
+				sh.SetID = sid
+				sh.AmpHash = 998
+				if id, ok := r.u.hashIDs[h.AMP.Hash]; ok {
+					sh.AmpHash = id
+				}
+				sh.AmpHashHex = hex.EncodeToString(h.AMP.Hash[:])
 				if h.AMP.Preimage != nil {
-					sh.AmpPre = hex.EncodeToString(h.AMP.Preimage[:])
+					sh.AmpPre = 999
+					if id, ok := r.u.preID[*h.AMP.Preimage]; ok {
+						sh.AmpPre = id
+					}
+					sh.AmpPreHex = hex.EncodeToString(h.AMP.Preimage[:])
 				}
 			}
 			s.Htlcs = append(s.Htlcs, sh)
 		}
 		sort.Slice(s.Htlcs, func(i, j int) bool { return s.Htlcs[i].Key < s.Htlcs[j].Key })
+		s.AmpState = [][3]uint64{}
+		for sid, st := range inv.AMPState {
+			id, ok := r.u.setIDs[sid]
+			if !ok {
+				id = 997
+			}
+			s.AmpState = append(s.AmpState, [3]uint64{uint64(id), uint64(st.State), uint64(st.AmtPaid)})
+		}
+		sort.Slice(s.AmpState, func(i, j int) bool { return s.AmpState[i][0] < s.AmpState[j][0] })
 		out = append(out, s)
 		return true
 	}
 	for id := 1; id <= len(r.u.hash); id++ {
 		one(id, r.u.hashOf(id))
-	}
-	for _, id := range r.extraID {
-		one(id, r.extra[id])
 	}
 	return out
 }
@@ -447,24 +559,14 @@ func (r *vRun) add(v *vInvoice) {
 }
 
 func (r *vRun) notify(h *vHtlc, height int32) {
+	pl := r.u.payload(h)
 	hh := *h
 	hh.Height = height
 	hash := r.u.hashOf(h.Hash)
-	if h.rawHash != nil {
-		hash = *h.rawHash
-		id := 100 + h.Key
-		if _, ok := r.extra[id]; !ok {
-			if r.extra == nil {
-				r.extra = map[int]lntypes.Hash{}
-			}
-			r.extra[id] = hash
-			r.extraID = append(r.extraID, id)
-		}
-	}
 	hh.HashHex = hex.EncodeToString(hash[:])
 	res, err := r.reg.NotifyExitHopHtlc(
 		hash, lnwire.MilliSatoshi(h.Amt), h.Expiry, height, r.u.key(h.Key),
-		r.hodl, nil, r.u.payload(h),
+		r.hodl, nil, pl,
 	)
 	var reply []any
 	switch {
@@ -500,7 +602,11 @@ func (r *vRun) timeout(h *vHtlc) {
 	hash := r.u.hashOf(h.Hash)
 	switch {
 	case h.ampRec != nil:
+		// the registry's release timer of an AMP htlc refers to it by set id
 		ref = InvoiceRefBySetID(h.ampRec.SetID())
+		err := r.reg.cancelSingleHtlc(ref, r.u.key(h.Key), ResultMppTimeout)
+		r.record([]any{"timeout_set", h.SetID, h.Key}, []any{"api", vErrName(err)})
+		return
 	case h.Path != nil:
 		ref = InvoiceRefByHashAndAddr(hash, r.u.addrOf(*h.Path))
 		addr = *h.Path
@@ -518,7 +624,9 @@ func (r *vRun) timeout(h *vHtlc) {
 }
 
 func vNewUniverse(r *vrng, npre, nextra, naddr int, ci int) *vUniverse {
-	u := &vUniverse{preID: map[[32]byte]int{}, chanBase: uint64(1000 + 4*ci)}
+	u := &vUniverse{preID: map[[32]byte]int{}, chanBase: uint64(1000 + 4*ci),
+		hashIDs: map[[32]byte]int{}, shareIDs: map[[32]byte]int{}, setIDs: map[[32]byte]int{},
+		nextAux: 500, ampSeen: map[string]bool{}}
 	for i := 0; i < npre; i++ {
 		var p [32]byte
 		copy(p[:], r.bytes(32))
@@ -538,6 +646,15 @@ func vNewUniverse(r *vrng, npre, nextra, naddr int, ci int) *vUniverse {
 		a[0] |= 1
 		u.addr = append(u.addr, a)
 	}
+	for i, h := range u.hash {
+		u.hashIDs[h] = i + 1
+	}
+	// the fixed AMP record of the model stream: share id 7, set id 9, index 1
+	var share, set [32]byte
+	share[0], set[0] = 7, 9
+	u.shareIDs[share] = 7
+	u.setIDs[set] = 9
+	u.setIDs[[32]byte{}] = 0
 	return u
 }
 
@@ -576,7 +693,7 @@ func vModelCase(t *testing.T, r *vrng, ci int, backend string, mk VMakeDB) *vCas
 	reg := vNewRegistry(t, mk, cfg)
 	run := &vRun{t: t, u: u, reg: reg, hodl: make(chan interface{}, 256)}
 	c := &vCase{Kind: "model", Backend: backend, Case: ci,
-		Cfg: map[string]any{"rd": rd, "keysend": keysend, "kshold": kshold,
+		Cfg: map[string]any{"rd": rd, "keysend": keysend, "kshold": kshold, "amp": false,
 			"kv": backend == "kv"}}
 	for i := 0; i < npre; i++ {
 		c.Tbl = append(c.Tbl, [2]int{i + 1, i + 1})
@@ -865,27 +982,78 @@ func minU64(a, b uint64) uint64 {
 	return b
 }
 
-// vAmpCase: AMP invoices / spontaneous AMP with real share derivation.  These
-// cases are checked by the python predicate only (no model correspondence).
+// vAmpCase: AMP invoices / spontaneous AMP with real share derivation
+// (amp.SeedSharer); the reconstruction oracle of the model is tabulated with
+// amp.ReconstructChildren for every subset of the AMP records of one set id.
 func vAmpCase(t *testing.T, r *vrng, ci int, backend string, mk VMakeDB) *vCase {
-	u := vNewUniverse(r, 2, 8, 2, ci)
-	rd := int32(4)
-	spont := r.bool()
+	u := vNewUniverse(r, 2, 3, 2, ci) // hashes 1,2 have preimages; 3,4,5 do not
+	rd := int32(vPick(r, []int{4, 4, 0, 10}))
+	spont := r.intn(3) == 0
 	cfg := RegistryConfig{FinalCltvRejectDelta: rd, AcceptAMP: spont}
 	reg := vNewRegistry(t, mk, cfg)
 	run := &vRun{t: t, u: u, reg: reg, hodl: make(chan interface{}, 256)}
 	c := &vCase{Kind: "amp", Backend: backend, Case: ci,
-		Cfg: map[string]any{"rd": rd, "accept_amp": spont, "kv": backend == "kv"}}
-	baseHeight := int32(100)
-	value := uint64(vPick(r, []int{0, 1000, 90000}))
-	inv := &vInvoice{Hash: 3, Value: value, Delta: 4, Amp: true, Addr: 1, Kind: "amp_invoice"}
-	if !spont || r.bool() {
-		run.add(inv)
+		Cfg: map[string]any{"rd": rd, "keysend": false, "kshold": false, "amp": spont,
+			"kv": backend == "kv"}}
+	baseHeight := int32(vPick(r, []int{100, 100, 700000}))
+	value := uint64(vPick(r, []int{0, 1000, 1000, 90000}))
+	invA := &vInvoice{Hash: 3, Value: value, Delta: int32(vPick(r, []int{4, 4, 9, 3})),
+		Amp: true, Addr: 1, Kind: "amp_invoice"}
+	one := 1
+	switch r.intn(14) {
+	case 0:
+		invA.Pre = &one // AMP invoice carrying an invoice-level preimage
+		invA.Kind = "amp_with_preimage"
+	case 1:
+		invA.Hodl = true
+		invA.Kind = "amp_hodl"
 	}
-	// two payment attempts (set ids) of 1..3 shards each
+	// second invoice behind payment address 2
+	var invB *vInvoice
+	switch r.intn(4) {
+	case 0:
+		invB = &vInvoice{Hash: 4, Value: uint64(vPick(r, []int{0, 500})), Delta: 4, Amp: true,
+			Addr: 2, Kind: "amp_invoice"}
+	case 1:
+		invB = &vInvoice{Hash: 1, Value: value, Delta: 4, Pre: &one, Addr: 2, AddrReq: true,
+			Kind: "mpp"}
+	}
 	var htlcs []*vHtlc
+	groups := map[int][]*vHtlc{}
 	key := 1
-	for set := 0; set < 2; set++ {
+	margin := func(delta int32) int32 {
+		if rd > delta {
+			return rd
+		}
+		return delta
+	}
+	mkAmp := func(set int, setID [32]byte, child *amp.Child, idx uint32, amt uint64,
+		addr int, total uint64, expiry uint32) *vHtlc {
+
+		h := &vHtlc{Hash: u.lookupHashID(child.Hash), Key: key, Amt: amt, Expiry: expiry,
+			Mpp: []int64{int64(addr), int64(total)}, Amp: true, SetID: set,
+			Share: u.shareID(child.Share), Idx: idx,
+			ampRec: record.NewAMP([32]byte(child.Share), setID, idx)}
+		key++
+		htlcs = append(htlcs, h)
+		groups[set] = append(groups[set], h)
+		return h
+	}
+	newRoot := func() *amp.SeedSharer {
+		var root amp.Share
+		copy(root[:], r.bytes(32))
+		root[0] |= 1
+		return amp.SeedSharerFromRoot(&root)
+	}
+	expFor := func(delta int32) uint32 {
+		off := vPick(r, []int32{0, 0, 0, 1, -1, 20})
+		return uint32(baseHeight + margin(delta) + off)
+	}
+	// payment attempts (set ids) of 1..3 shards each towards invoice A
+	nsets := 2 + r.intn(2)
+	setBytes := map[int][32]byte{}
+	setTotal := map[int]uint64{}
+	for set := 1; set <= nsets; set++ {
 		total := value
 		switch r.intn(5) {
 		case 0:
@@ -900,16 +1068,22 @@ func vAmpCase(t *testing.T, r *vrng, ci int, backend string, mk VMakeDB) *vCase 
 		}
 		n := 1 + r.intn(3)
 		var setID [32]byte
-		copy(setID[:], r.bytes(32))
-		var sharer amp.Sharer
-		var err error
-		var root amp.Share
-		copy(root[:], r.bytes(32))
-		root[0] |= 1
-		sharer = amp.SeedSharerFromRoot(&root)
+		sid := set
+		if set == nsets && r.intn(10) == 0 {
+			sid = 0 // the blank set id
+		} else {
+			copy(setID[:], r.bytes(32))
+			setID[0] |= 1
+			u.setIDs[setID] = sid
+		}
+		setBytes[sid] = setID
+		setTotal[sid] = total
+		var sharer amp.Sharer = newRoot()
 		rem := total
+		swap := n > 1 && r.intn(10) == 0
 		for s := 0; s < n; s++ {
 			var left amp.Sharer
+			var err error
 			if s < n-1 {
 				left, sharer, err = sharer.Split()
 				if err != nil {
@@ -934,39 +1108,133 @@ func vAmpCase(t *testing.T, r *vrng, ci int, backend string, mk VMakeDB) *vCase 
 					a++
 				}
 			}
-			share := child.Share
 			if r.intn(14) == 0 {
-				share[3] ^= 0x40 // corrupted share: reconstruction must fail
+				child.Share[3] ^= 0x40 // corrupted share: reconstruction must fail
 			}
-			hh := lntypes.Hash(child.Hash)
+			idx := uint32(s)
+			if swap && s == n-1 {
+				idx = 0 // child index of another shard reused (hash unchanged)
+			}
 			t2 := total
 			if r.intn(12) == 0 {
 				t2++
 			}
-			off := vPick(r, []int32{0, 0, 1, -1, 20})
-			h := &vHtlc{Hash: 3, Key: key, Amt: a, Expiry: uint32(baseHeight + 4 + off),
-				Mpp: []int64{1, int64(t2)}, Amp: true, SetID: set + 1,
-				ampRec: record.NewAMP([32]byte(share), setID, uint32(s)), rawHash: &hh}
-			key++
-			htlcs = append(htlcs, h)
+			addr := 1
+			if r.intn(20) == 0 {
+				addr = 2
+			}
+			mkAmp(sid, setID, child, idx, a, addr, t2, expFor(invA.Delta))
 		}
 	}
-	nev := 6 + r.intn(8)
+	// a later, self-contained payment re-using the set id of set 1
+	if r.intn(2) == 0 {
+		total := setTotal[1]
+		if r.intn(3) == 0 {
+			total++
+		}
+		amt := total
+		if r.intn(4) == 0 && amt > 0 {
+			amt-- // short: joins the (possibly settled) set as a partial htlc
+		}
+		mkAmp(1, setBytes[1], newRoot().Child(0), 0, amt, 1, total, expFor(invA.Delta))
+	}
+	// set id of set 1 presented to the invoice behind address 2, and a set of its own
+	if invB != nil || spont || r.intn(4) == 0 {
+		if r.intn(2) == 0 {
+			total := setTotal[1]
+			mkAmp(1, setBytes[1], newRoot().Child(0), 0, total, 2, total, expFor(4))
+		}
+		var setID [32]byte
+		copy(setID[:], r.bytes(32))
+		setID[0] |= 1
+		sid := nsets + 1
+		u.setIDs[setID] = sid
+		total := uint64(500 + r.intn(3))
+		sh := newRoot()
+		l, rr, err := sh.Split()
+		if err != nil {
+			t.Fatal(err)
+		}
+		a := uint64(r.rng(0, int64(total)))
+		mkAmp(sid, setID, l.Child(0), 0, a, 2, total, expFor(4))
+		mkAmp(sid, setID, rr.Child(1), 1, total-a, 2, total, expFor(4))
+	}
+	for set := 0; set <= nsets+1; set++ {
+		if g := groups[set]; len(g) > 0 {
+			if len(g) > 6 {
+				t.Fatalf("amp group too large: %d", len(g))
+			}
+			u.ampOracle(g)
+		}
+	}
+	for i := 0; i < 2; i++ {
+		c.Tbl = append(c.Tbl, [2]int{i + 1, i + 1})
+	}
+	for p, id := range u.preID {
+		if id >= 10 {
+			c.Tbl = append(c.Tbl, [2]int{id, u.anyHashID(sha256.Sum256(p[:]))})
+		}
+	}
+	sort.Slice(c.Tbl, func(i, j int) bool { return c.Tbl[i][0] < c.Tbl[j][0] })
+	c.AmpTbl = u.ampTbl
+
+	// --- events ---
+	addedA, addedB := false, invB == nil
+	if !spont || r.intn(3) > 0 {
+		run.add(invA)
+		addedA = true
+	}
+	if invB != nil && r.intn(4) > 0 {
+		run.add(invB)
+		addedB = true
+	}
+	nev := 9 + r.intn(12)
 	var sent []*vHtlc
+	next := 0
 	for e := 0; e < nev; e++ {
-		switch k := r.intn(12); {
-		case k < 8:
+		switch k := r.intn(30); {
+		case k < 15 && next < len(htlcs):
+			h := htlcs[next]
+			next++
+			ht := baseHeight
+			if r.intn(10) == 0 {
+				ht += int32(r.intn(3)) - 1
+			}
+			run.notify(h, ht)
+			sent = append(sent, h)
+		case k < 18:
 			h := vPick(r, htlcs)
 			run.notify(h, baseHeight)
 			sent = append(sent, h)
-		case k < 9 && len(sent) > 0:
-			run.notify(vPick(r, sent), baseHeight+int32(r.intn(3)))
-		case k < 10 && len(sent) > 0:
+		case k < 22 && len(sent) > 0:
+			ht := baseHeight
+			if r.intn(3) == 0 {
+				ht += int32(r.intn(30))
+			}
+			run.notify(vPick(r, sent), ht)
+		case k < 25 && len(sent) > 0:
 			run.timeout(vPick(r, sent))
-		case k < 11:
-			run.cancel(3, true)
+		case k < 26:
+			run.timeout(vPick(r, htlcs))
+		case k < 27:
+			if r.intn(3) == 0 && invB != nil {
+				run.cancel(invB.Hash, r.bool())
+			} else {
+				run.cancel(3, r.intn(3) > 0)
+			}
+		case k < 28:
+			run.settle(1 + r.intn(2))
 		default:
-			run.add(inv)
+			switch {
+			case !addedA:
+				run.add(invA)
+				addedA = true
+			case !addedB:
+				run.add(invB)
+				addedB = true
+			case r.intn(3) == 0:
+				run.add(invA)
+			}
 		}
 	}
 	c.Ops = run.ops
@@ -983,7 +1251,7 @@ func VerifRunRegistry(t *testing.T, makeKV VMakeDB) {
 	defer out.close()
 	master := vNewRng(vSeed())
 	ncases := vCases(70, 1500)
-	namp := vCases(16, 300)
+	namp := vCases(24, 600)
 	if v := vEnvInt("VERIF_AMP_CASES", -1); v >= 0 {
 		namp = int(v)
 	}
@@ -1010,14 +1278,17 @@ func VerifRunRegistry(t *testing.T, makeKV VMakeDB) {
 		}
 	}
 	for ci := 0; ci < namp; ci++ {
-		b := backends[ci%2]
-		if only != "" && only != b.name {
-			continue
+		for bi, b := range backends {
+			if only != "" && only != b.name {
+				continue
+			}
+			// same seeded case on both stores (share bytes differ between
+			// the two runs: amp.Split draws from crypto/rand)
+			r := master.fork(uint64(1000000 + ci))
+			t.Run("", func(t *testing.T) {
+				out.emit(vAmpCase(t, r, 2*ncases+2*ci+bi, b.name, b.mk))
+			})
 		}
-		r := master.fork(uint64(1000000 + ci))
-		t.Run("", func(t *testing.T) {
-			out.emit(vAmpCase(t, r, 2*ncases+ci, b.name, b.mk))
-		})
 	}
 }
 
